@@ -448,14 +448,15 @@ Definition InvN (s : gst) : Prop :=
   (forall i, fcnt s i = 1 -> 0 <= i < nreg s /\ gcount s = 0) /\
   (forall i, In i (pending s) -> 0 <= i < nreg s /\ fcnt s i = 0) /\
   (forall i, 0 <= i < nreg s -> In i (pending s) \/ fcnt s i = 1) /\
-  (gcount s = 0 -> pending s = []).
+  (gcount s = 0 -> pending s = []) /\
+  (hasgrp s = false -> nreg s = 0).
 
 Lemma InvN_init pf : InvN (init_state pf).
 Proof. unfold InvN, init_state; cbn. repeat split; intros; try lia; try contradiction; discriminate. Qed.
 
 Lemma InvN_ext s s' : nreg s' = nreg s -> fcnt s' = fcnt s -> pending s' = pending s -> gcount s' = gcount s ->
-  InvN s -> InvN s'.
-Proof. unfold InvN. intros -> -> -> ->. auto. Qed.
+  hasgrp s' = hasgrp s -> InvN s -> InvN s'.
+Proof. unfold InvN. intros -> -> -> -> ->. auto. Qed.
 
 Lemma existsb_In i l : existsb (Z.eqb i) l = true <-> In i l.
 Proof.
@@ -466,7 +467,7 @@ Qed.
 
 Lemma InvN_step s t s' : gs s t s' -> InvN s -> InvN s'.
 Proof.
-  intros G N. pose proof N as (N0 & N1 & N2 & N3 & N4 & N5).
+  intros G N. pose proof N as (N0 & N1 & N2 & N3 & N4 & N5 & N6).
   destruct G; try (apply (InvN_ext s); [reflexivity..|exact N]);
     try (unfx; repeat match goal with |- context [if ?c then _ else _] => destruct c end;
          (apply (InvN_ext s); [reflexivity..|exact N])).
@@ -474,7 +475,7 @@ Proof.
     unfold leave_fx; sf. destruct (Z.eqb_spec (gcount s - 1) 0) as [C|C]; unfold InvN; sf.
     + assert (Hf : forall i, fire (pending s) (fcnt s) i = if existsb (Z.eqb i) (pending s) then fcnt s i + 1 else fcnt s i)
         by reflexivity.
-      split; [exact N0|]. split; [|split; [|split; [|split]]].
+      split; [exact N0|]. split; [|split; [|split; [|split; [|split; [|exact N6]]]]].
       * intros i. rewrite Hf. destruct (existsb (Z.eqb i) (pending s)) eqn:E; [|apply N1].
         apply existsb_In in E. destruct (N3 i E) as [_ Z0]. lia.
       * intros i. rewrite Hf. destruct (existsb (Z.eqb i) (pending s)) eqn:E; intros F1.
@@ -485,7 +486,7 @@ Proof.
         -- apply existsb_In in E. destruct (N3 i E) as [_ Z0]. lia.
         -- destruct (N4 i R) as [X|X]; [|exact X]. apply existsb_In in X. congruence.
       * reflexivity.
-    + split; [exact N0|]. split; [exact N1|]. split; [|split; [exact N3|split; [exact N4|]]].
+    + split; [exact N0|]. split; [exact N1|]. split; [|split; [exact N3|split; [exact N4|split; [|exact N6]]]].
       * intros i F1. destruct (N2 i F1) as [_ X]. contradiction.
       * intros X. contradiction.
   - (* notify takes effect *)
@@ -493,7 +494,7 @@ Proof.
     { pose proof (N1 (nreg s)) as B. destruct (Z.eq_dec (fcnt s (nreg s)) 1) as [E|E]; [|lia].
       destruct (N2 _ E) as [R _]. lia. }
     unfold notify_fx; sf. destruct (Z.eqb_spec (gcount s) 0) as [C|C]; unfold InvN; sf.
-    + split; [lia|]. split; [|split; [|split; [|split]]].
+    + split; [lia|]. split; [|split; [|split; [|split; [|split; [|intros X; congruence]]]]].
       * intros i. destruct (Z.eq_dec i (nreg s)) as [->|Ne]; [rewrite upd_same; lia | rewrite upd_other by exact Ne; apply N1].
       * intros i. destruct (Z.eq_dec i (nreg s)) as [->|Ne].
         -- intros _. split; [lia|exact C].
@@ -502,7 +503,7 @@ Proof.
       * intros i R. right. destruct (Z.eq_dec i (nreg s)) as [->|Ne]; [rewrite upd_same; lia|].
         rewrite upd_other by exact Ne. destruct (N4 i ltac:(lia)) as [X|X]; [|exact X]. rewrite (N5 C) in X. destruct X.
       * exact N5.
-    + split; [lia|]. split; [exact N1|]. split; [|split; [|split]].
+    + split; [lia|]. split; [exact N1|]. split; [|split; [|split; [|split; [|intros X; congruence]]]].
       * intros i F1. destruct (N2 i F1) as [_ X]. contradiction.
       * intros i [<-|X]; [split; [lia|exact F0]|]. destruct (N3 i X) as [R Z0]. split; [lia|exact Z0].
       * intros i R. destruct (Z.eq_dec i (nreg s)) as [->|Ne]; [left; left; reflexivity|].
@@ -591,8 +592,8 @@ Lemma InvW_fields s s' : flags s' = flags s -> waiter s' = waiter s -> gcount s'
   pcs s' = pcs s -> InvW s -> InvW s'.
 Proof. unfold InvW, tinvW. intros -> -> -> -> ->. auto. Qed.
 
-Ltac wlocal W Hpc :=
-  apply (InvW_local _ _ _ W); sf;
+Ltac wlocal s t W Hpc :=
+  apply (InvW_local s t _ W); sf;
   [ rewrite Hpc; reflexivity | rewrite Hpc; discriminate | auto | reflexivity | reflexivity | auto
   | intros ? ?; apply upd_other; assumption | rewrite upd_same ].
 
@@ -600,48 +601,48 @@ Lemma InvW_step s t s' : gs s t s' -> InvW s -> InvW s'.
 Proof.
   intros G W. pose proof W as (W1 & W2 & W3 & WT). pose proof (WT t) as (T1 & T2 & T3).
   destruct G.
-  - (* call *) wlocal W H.
+  - (* call *) wlocal s t W H.
     destruct (call_entry_cases _ _ _ H0) as [->|[->|[->|[->|[->|[->| ->]]]]]]; reflexivity.
   - (* entry *)
     assert (Hnw : in_wait (pcs s t) = false) by (destruct H as [[-> _]| ->]; reflexivity).
     assert (Hnc : pcs s t <> PCrash) by (destruct H as [[-> _]| ->]; discriminate).
     unfold entry_fx. destruct (hasb (flags s) WAITED); [|destruct (hasb (flags s) CANCELED)];
-      apply (InvW_local _ _ _ W Hnw Hnc); sf; auto; try (intros ? ?; apply upd_other; assumption);
+      apply (InvW_local s t _ W Hnw Hnc); sf; auto; try (intros ? ?; apply upd_other; assumption);
       rewrite upd_same; apply in_wait_inv_entry.
-  - wlocal W H. reflexivity.
-  - wlocal W H. reflexivity.
-  - wlocal W H. destruct v; reflexivity.
-  - wlocal W H. reflexivity.
-  - wlocal W H. destruct v; reflexivity.
-  - wlocal W H. reflexivity.
-  - wlocal W H. reflexivity.
-  - wlocal W H. apply in_wait_after_body.
-  - wlocal W H. destruct (wrapsz 4 (performed s + 1) =? 1); reflexivity.
+  - wlocal s t W H. reflexivity.
+  - wlocal s t W H. reflexivity.
+  - wlocal s t W H. destruct v; reflexivity.
+  - wlocal s t W H. reflexivity.
+  - wlocal s t W H. destruct v; reflexivity.
+  - wlocal s t W H. reflexivity.
+  - wlocal s t W H. reflexivity.
+  - wlocal s t W H. apply in_wait_after_body.
+  - wlocal s t W H. destruct (wrapsz 4 (performed s + 1) =? 1); reflexivity.
   - (* leave *)
-    unfold leave_fx; sf. destruct (gcount s - 1 =? 0); apply (InvW_local _ _ _ W); sf; auto;
+    unfold leave_fx; sf. destruct (gcount s - 1 =? 0); apply (InvW_local s t _ W); sf; auto;
       try (rewrite H; reflexivity); try (rewrite H; discriminate); try (intros X; contradiction);
       try (intros ? ?; apply upd_other; assumption); rewrite upd_same; reflexivity.
-  - wlocal W H. reflexivity.
+  - wlocal s t W H. reflexivity.
   - (* group noise: the pc does not change *)
     destruct H as [[v Hv]|[[tmo Hv]| Hv]].
-    + wlocal W Hv. rewrite Hv. reflexivity.
-    + apply InvW_inside; auto; rewrite Hv; auto; try discriminate. intros r X. discriminate X.
-    + wlocal W Hv. rewrite Hv. reflexivity.
-  - wlocal W H. reflexivity.
+    + wlocal s t W Hv. rewrite Hv. reflexivity.
+    + apply InvW_inside; auto; rewrite Hv; auto; try discriminate; try (intros r X; discriminate X).
+    + wlocal s t W Hv. rewrite Hv. reflexivity.
+  - wlocal s t W H. reflexivity.
   - (* xchg after the completion *)
-    unfold take_queue; sf. destruct (queue s =? 0); apply (InvW_local _ _ _ W); sf; auto;
+    unfold take_queue; sf. destruct (queue s =? 0); apply (InvW_local s t _ W); sf; auto;
       try (rewrite H; reflexivity); try (rewrite H; discriminate);
       try (intros ? ?; apply upd_other; assumption); rewrite upd_same; destruct v; reflexivity.
-  - wlocal W H. destruct v; reflexivity.
-  - (* cancel *) wlocal W H. reflexivity.
-  - wlocal W H. reflexivity.
+  - wlocal s t W H. destruct v; reflexivity.
+  - (* cancel *) wlocal s t W H. reflexivity.
+  - wlocal s t W H. reflexivity.
   - (* wait: or-orig of DBF_WAITING *)
     rewrite hasb_DW. destruct (Z.testbit (flags s) 2 || Z.testbit (flags s) 1) eqn:B.
     + (* already waiting / waited: crash; the or changes nothing *)
       assert (B1 : Z.testbit (flags s) 1 = true).
       { destruct (Z.testbit (flags s) 1) eqn:X; [reflexivity|]. rewrite orb_false_r in B. apply W1. right. exact B. }
       unfold InvW; sf. split; [|split; [|split]].
-      * bits. rewrite B1. cbn. split; [intros _; apply W1; exact B1 | reflexivity].
+      * bits. split; [intros _; apply W1; exact B1 | reflexivity].
       * bits. exact W2.
       * intros w E. destruct (Z.eq_dec w t) as [->|Ne]; [rewrite upd_same; right; reflexivity|].
         rewrite upd_other by exact Ne. exact (W3 w E).
@@ -698,9 +699,155 @@ Proof.
       * discriminate.
       * intros u. destruct (Z.eq_dec u t) as [->|Ne]; [apply tinvW_notwait; sf; rewrite upd_same; reflexivity|].
         apply (tinvW_other s _ t u); sf; auto. apply upd_other; exact Ne.
-  - wlocal W H. destruct H0 as [-> | ->]; reflexivity.
+  - wlocal s t W H. destruct H0 as [-> | ->]; reflexivity.
   - (* notify takes effect *)
-    unfold notify_fx; sf. destruct (gcount s =? 0); apply (InvW_local _ _ _ W); sf; auto;
+    unfold notify_fx; sf. destruct (gcount s =? 0); apply (InvW_local s t _ W); sf; auto;
       try (rewrite H; reflexivity); try (rewrite H; discriminate);
       try (intros ? ?; apply upd_other; assumption); rewrite upd_same; reflexivity.
+Qed.
+
+(* ================= invariant Q: the references taken on the target queue for dbpd_queue ================= *)
+Lemma rm_In x t l : In x (rm t l) <-> In x l /\ x <> t.
+Proof.
+  unfold rm. split.
+  - intros H. apply in_remove in H. exact H.
+  - intros [H Ne]. apply in_in_remove; assumption.
+Qed.
+Lemma rm_NoDup t l : NoDup l -> NoDup (rm t l).
+Proof.
+  unfold rm. induction 1 as [|x l Hx Hl IH]; cbn; [constructor|].
+  destruct (Z.eq_dec t x); [exact IH|]. constructor; [|exact IH].
+  intros X. apply in_remove in X. tauto.
+Qed.
+Lemma rm_notin t l : ~ In t l -> rm t l = l.
+Proof. unfold rm. intros H. apply notin_remove. exact H. Qed.
+Lemma rm_length t l : NoDup l -> In t l -> Z.of_nat (length (rm t l)) = Z.of_nat (length l) - 1.
+Proof.
+  unfold rm. induction 1 as [|x l Hx Hl IH]; cbn [remove In length]; [intros []|].
+  intros [->|Ht].
+  - destruct (Z.eq_dec t t); [|contradiction]. fold (rm t l). rewrite (rm_notin t l Hx). lia.
+  - destruct (Z.eq_dec t x) as [->|Ne]; [contradiction|]. cbn [length]. specialize (IH Ht). lia.
+Qed.
+
+Definition holds (p : pc) : bool :=
+  match p with PSubmitCas _ | PSubmitRel _ | PRel _ | PWaitWake _ _ => true | _ => false end.
+Definition InvQ (s : gst) : Prop :=
+  qref s = 2 * ((if queue s =? 0 then 0 else 1) + Z.of_nat (length (hands s))) /\
+  NoDup (hands s) /\ forall u, In u (hands s) <-> holds (pcs s u) = true.
+
+Lemma InvQ_init pf : InvQ (init_state pf).
+Proof. unfold InvQ, init_state; cbn. repeat split; try constructor; intros; try contradiction; discriminate. Qed.
+
+(* a thread that holds no references moves to a point where it holds none *)
+Lemma InvQ_local s t s' : InvQ s -> holds (pcs s t) = false -> holds (pcs s' t) = false ->
+  qref s' = qref s -> queue s' = queue s -> hands s' = hands s -> (forall u, u <> t -> pcs s' u = pcs s u) -> InvQ s'.
+Proof.
+  intros (Q1 & Q2 & Q3) H1 H2 Hq Hu Hh Hp. unfold InvQ. rewrite Hq, Hu, Hh. split; [exact Q1|]. split; [exact Q2|].
+  intros u. destruct (Z.eq_dec u t) as [->|Ne].
+  - rewrite H2. rewrite (Q3 t), H1. tauto.
+  - rewrite (Hp u Ne). apply Q3.
+Qed.
+(* a thread takes a pair of references in hand *)
+Lemma InvQ_take s t s' : InvQ s -> holds (pcs s t) = false -> holds (pcs s' t) = true -> hands s' = t :: hands s ->
+  qref s' = 2 * ((if queue s' =? 0 then 0 else 1) + Z.of_nat (length (hands s)) + 1) ->
+  (forall u, u <> t -> pcs s' u = pcs s u) -> InvQ s'.
+Proof.
+  intros (Q1 & Q2 & Q3) H1 H2 Hh Hq Hp.
+  assert (Nt : ~ In t (hands s)) by (rewrite (Q3 t), H1; discriminate).
+  unfold InvQ. rewrite Hh. split; [|split].
+  - rewrite Hq. cbn [length]. lia.
+  - constructor; assumption.
+  - intros u. destruct (Z.eq_dec u t) as [->|Ne].
+    + rewrite H2. split; [reflexivity|intros _; left; reflexivity].
+    + rewrite (Hp u Ne). rewrite <- (Q3 u). split; [intros [X|X]; [congruence|exact X] | intros X; right; exact X].
+Qed.
+(* a thread gives its pair of references away (to the slot, or back to the queue) *)
+Lemma InvQ_give s t s' : InvQ s -> holds (pcs s t) = true -> holds (pcs s' t) = false -> hands s' = rm t (hands s) ->
+  qref s' = 2 * ((if queue s' =? 0 then 0 else 1) + Z.of_nat (length (hands s)) - 1) ->
+  (forall u, u <> t -> pcs s' u = pcs s u) -> InvQ s'.
+Proof.
+  intros (Q1 & Q2 & Q3) H1 H2 Hh Hq Hp.
+  assert (It : In t (hands s)) by (rewrite (Q3 t); exact H1).
+  unfold InvQ. rewrite Hh. split; [|split].
+  - rewrite Hq. rewrite (rm_length t _ Q2 It). lia.
+  - apply rm_NoDup. exact Q2.
+  - intros u. rewrite rm_In. destruct (Z.eq_dec u t) as [->|Ne].
+    + rewrite H2. split; [intros [_ X]; contradiction|discriminate].
+    + rewrite (Hp u Ne). rewrite <- (Q3 u). tauto.
+Qed.
+
+Lemma holds_inv_entry v f : holds (inv_entry v f) = false.
+Proof. unfold inv_entry, after_body. destruct (hasb f WAITED), (hasb f CANCELED), (hasb f PERFORM), v; reflexivity. Qed.
+Lemma holds_after_body v f : holds (after_body v f) = false.
+Proof. unfold after_body. destruct (hasb f PERFORM); reflexivity. Qed.
+
+Ltac qlocal s t Q Hpc :=
+  apply (InvQ_local s t _ Q); sf;
+  [ rewrite Hpc; reflexivity | rewrite upd_same | reflexivity | reflexivity | reflexivity
+  | intros ? ?; apply upd_other; assumption ].
+
+Lemma InvQ_step s t s' : gs s t s' -> InvQ s -> InvQ s'.
+Proof.
+  intros G Q. pose proof Q as (Q1 & Q2 & Q3).
+  destruct G.
+  - qlocal s t Q H. destruct (call_entry_cases _ _ _ H0) as [->|[->|[->|[->|[->|[->| ->]]]]]]; reflexivity.
+  - assert (Hh : holds (pcs s t) = false) by (destruct H as [[-> _]| ->]; reflexivity).
+    unfold entry_fx. destruct (hasb (flags s) WAITED); [|destruct (hasb (flags s) CANCELED)];
+      apply (InvQ_local s t _ Q Hh); sf; auto; try (intros ? ?; apply upd_other; assumption);
+      rewrite upd_same; apply holds_inv_entry.
+  - qlocal s t Q H. reflexivity.
+  - (* retain *)
+    apply (InvQ_take s t _ Q); sf; auto; [rewrite H; reflexivity | rewrite upd_same; reflexivity | rewrite Q1; lia
+                                        | intros ? ?; apply upd_other; assumption].
+  - (* cas ok: the references go to the slot *)
+    apply (InvQ_give s t _ Q); sf; auto; [rewrite H; reflexivity | rewrite upd_same; destruct v; reflexivity | 
+                                        | intros ? ?; apply upd_other; assumption].
+    rewrite Q1, H0. destruct (Z.eqb_spec dq 0); [contradiction|]. cbn [Z.eqb]. lia.
+  - (* cas failed: keeps them in hand *)
+    destruct Q as (_ & _ & _). split; [exact Q1|]. split; [exact Q2|]. sf.
+    intros u. destruct (Z.eq_dec u t) as [->|Ne].
+    + rewrite upd_same. rewrite (Q3 t), H. reflexivity.
+    + rewrite upd_other by exact Ne. apply Q3.
+  - apply (InvQ_give s t _ Q); sf; auto; [rewrite H; reflexivity | rewrite upd_same; destruct v; reflexivity | rewrite Q1; lia
+                                        | intros ? ?; apply upd_other; assumption].
+  - qlocal s t Q H. reflexivity.
+  - qlocal s t Q H. reflexivity.
+  - qlocal s t Q H. apply holds_after_body.
+  - qlocal s t Q H. destruct (wrapsz 4 (performed s + 1) =? 1); reflexivity.
+  - unfold leave_fx; sf. destruct (gcount s - 1 =? 0); apply (InvQ_local s t _ Q); sf; auto;
+      try (rewrite H; reflexivity); try (intros ? ?; apply upd_other; assumption); rewrite upd_same; reflexivity.
+  - qlocal s t Q H. reflexivity.
+  - (* group noise *)
+    assert (Hh : holds (pcs s t) = false) by (destruct H as [[v Hv]|[[tmo Hv]| Hv]]; rewrite Hv; reflexivity).
+    apply (InvQ_local s t _ Q Hh); sf; auto; [rewrite upd_same; exact Hh | intros ? ?; apply upd_other; assumption].
+  - qlocal s t Q H. reflexivity.
+  - (* xchg after the completion *)
+    unfold take_queue; sf. destruct (Z.eqb_spec (queue s) 0) as [Q0|Q0].
+    + apply (InvQ_local s t _ Q); sf; auto; [rewrite H; reflexivity | rewrite upd_same; destruct v; reflexivity
+                                            | intros ? ?; apply upd_other; assumption].
+    + apply (InvQ_take s t _ Q); sf; auto; [rewrite H; reflexivity | rewrite upd_same; reflexivity | 
+                                          | intros ? ?; apply upd_other; assumption].
+      rewrite Q1. destruct (Z.eqb_spec (queue s) 0); [contradiction|]. cbn [Z.eqb]. lia.
+  - apply (InvQ_give s t _ Q); sf; auto; [rewrite H; reflexivity | rewrite upd_same; destruct v; reflexivity | rewrite Q1; lia
+                                        | intros ? ?; apply upd_other; assumption].
+  - qlocal s t Q H. reflexivity.
+  - qlocal s t Q H. reflexivity.
+  - qlocal s t Q H. destruct (hasb (flags s) (Z.lor WAITED WAITING)); reflexivity.
+  - (* wait: xchg *)
+    unfold take_queue; sf. destruct (Z.eqb_spec (queue s) 0) as [Q0|Q0].
+    + apply (InvQ_local s t _ Q); sf; auto; [rewrite H; reflexivity | rewrite upd_same; reflexivity
+                                            | intros ? ?; apply upd_other; assumption].
+    + apply (InvQ_take s t _ Q); sf; auto; [rewrite H; reflexivity | rewrite upd_same; reflexivity | 
+                                          | intros ? ?; apply upd_other; assumption].
+      rewrite Q1. destruct (Z.eqb_spec (queue s) 0); [contradiction|]. cbn [Z.eqb]. lia.
+  - apply (InvQ_give s t _ Q); sf; auto; [rewrite H; reflexivity | rewrite upd_same; reflexivity | rewrite Q1; lia
+                                        | intros ? ?; apply upd_other; assumption].
+  - qlocal s t Q H. reflexivity.
+  - qlocal s t Q H. destruct H0 as [-> | ->]; reflexivity.
+  - qlocal s t Q H. reflexivity.
+  - qlocal s t Q H. reflexivity.
+  - qlocal s t Q H. reflexivity.
+  - qlocal s t Q H. destruct H0 as [-> | ->]; reflexivity.
+  - unfold notify_fx; sf. destruct (gcount s =? 0); apply (InvQ_local s t _ Q); sf; auto;
+      try (rewrite H; reflexivity); try (intros ? ?; apply upd_other; assumption); rewrite upd_same; reflexivity.
 Qed.
